@@ -370,6 +370,13 @@ Theorem C17_wrapper_order_wire_stable :
 Proof. exact (stacks_order_ok_sound golden_wrapper_order C17_wrapper_sites (eq_refl true <: stacks_order_ok golden_wrapper_order C17_wrapper_sites = true)). Qed.
 Print Assumptions C17_wrapper_order_wire_stable.
 
+(* Reflective (gen/GenReadSites.v): both ends install the control-channel cipher under the released condition
+   (always, except internal ssh-tunnel sessions); no transport / TLS combination changes it on one end only *)
+Theorem C17_control_cipher_condition_wire_stable :
+  client_conn_encrypted = conn_enc_released_client /\ server_conn_encrypted = ["!internal"%string].
+Proof. exact (conn_enc_ok_sound _ _ (eq_refl true <: conn_enc_ok client_conn_encrypted server_conn_encrypted = true)). Qed.
+Print Assumptions C17_control_cipher_condition_wire_stable.
+
 (** * Message level: one round-trip theorem per registered message type
    (records, conversions, type bytes and encode_T / decode_T are regenerated from pkg/msg/msg.go on
    every run: gen/GenMsgRec.v; the JSON text layer is an oracle with parse (render o) = Some o;
